@@ -1,40 +1,71 @@
 """C15 pipeline: a loaded document can be shared by concurrent validations."""
+import concurrent.futures as cf
 import json
 import os
 import random
+import re
 
 from .common import *
 from .core import Ctx, Infra, casehash, log
+
+# MC_C15!Variants: the code as built and the two settings edits that are harmless alone keep NoRace; every other design
+# (one mechanism dropped) has a counterexample that is pinned here
+SAFE = ["as_built", "settings_shared", "settings_toggled"]
+UNSAFE = ["default_aliased", "route_shared", "settings_shared_toggled", "registry_lazy", "typeinfos_unlocked",
+          "pattern_cache_plain", "uricache_unlocked", "unique_nil", "writers_included"]
+
+
+def _design_checks(ctx):
+    src = open(ctx.spec("MC_C15.cfg")).read()
+
+    def one(v):
+        cfg = "MC_C15_%s.cfg" % v
+        with open(ctx.spec(cfg), "w") as f:
+            f.write(src.replace('Variant = "as_built"', 'Variant = "%s"' % v))
+        if v in SAFE:
+            return ctx.tlc("MC_C15", cfg, workers=1, xmx="1g", timeout=3000, label="D %s: all interleavings of 2 operations, NoRace" % v)
+        return ctx.tlc("MC_C15", cfg, workers=1, xmx="1g", timeout=3000, expect_violation=True, label="D %s: pinned counterexample" % v)
+
+    with cf.ThreadPoolExecutor(max_workers=6) as ex:
+        list(ex.map(one, SAFE + UNSAFE))
+    if ctx.tier == "thorough":
+        ctx.tlc("MC_C15", "MC_C15_3.cfg", label="D as_built: all interleavings of 3 operations, NoRace NoDeadlock", timeout=3000)
 
 
 @pipeline
 def c15(ctx: Ctx):
     ctx.assumptions = [
-        "TLC; spec/SharedState.tla: the access sequences of the catalogue's operations transcribed from the code (pattern cache = sync.Map, typeInfos under a mutex, defaults deep-copied, route copied); all interleavings are exhausted in the model only",
-        "on the code the Go race detector is the sensor (happens-before based: it reports a race whenever both accesses occurred unordered in the run, independent of timing, but only for access pairs the chosen operations actually perform): 8 goroutines per operation released together, 30 (quick) / 100 (thorough) iterations, fresh pattern strings and Go types per case so first-use paths overlap",
-        "T.Validate and router construction are documented writers and are not part of the validation-time catalogue",
+        "TLC; spec/SharedState.tla: every piece of process-wide or document-attached mutable state is a location; the access sequence of an operation <<entry, feature>> is composed from the entry's and the feature's accesses, transcribed from the code; all interleavings are exhausted in the model only",
+        "on the code the Go race detector is the sensor (happens-before based: it reports a race whenever both accesses occurred unordered in the run, independent of timing, but only for access pairs the chosen operations actually perform): 8 goroutines per operation released together, 100 iterations, fresh pattern strings, media types and Go types per case so first-use paths overlap",
+        "T.Validate, router construction and the Register* / Define* functions are documented writers and are not part of the validation-time catalogue (MC_C15 variant writers_included shows why)",
+        "the error type is part of what a call returns (classified with errors.As, never by text)",
     ]
     cases = os.path.join(ctx.scratch, "cases.ndjson")
     if ctx.replay:
         write_ndjson(cases, [ctx.replay["violation"]["c"]])
     else:
-        ctx.tlc("SharedState", "MC_C15.cfg", label="D all interleavings of 3 operations: NoRace")
-        ctx.tlc("SharedState", "MC_C15_pinned.cfg", expect_violation=True, label="D pinned-model counterexample (shared default written)")
-        ctx.tlc("Gen_C15", "Gen_C15_%s.cfg" % ctx.tier, label="F generate operation multisets")
+        _design_checks(ctx)
+        cfg = "Gen_C15_%s_seeded.cfg" % ctx.tier
+        with open(ctx.spec(cfg), "w") as f:
+            f.write(re.sub(r"Seed = \d+", "Seed = %d" % ctx.seed, open(ctx.spec("Gen_C15_%s.cfg" % ctx.tier)).read()))
+        ctx.tlc("Gen_C15", cfg, label="F generate concurrent runs", xmx="4g")
         n = ctx.unquote(ctx.spec("cases.ndjson"), cases)
-        log("[gen] %d multisets" % n)
+        log("[gen] %d cases" % n)
         ctx.exhaustive = True
     race = ctx.build_driver(race=True)
     logp = os.path.join(ctx.scratch, "log.ndjson")
-    ctx.drive(cases, logp, driver=race, env={"GORACE": "halt_on_error=1 exitcode=66"}, shards=4, timeout=5400)
+    ctx.drive(cases, logp, driver=race, env={"GORACE": "halt_on_error=1 exitcode=66"}, shards=(8 if ctx.tier == "quick" else 12), timeout=7200)
     rng = random.Random(ctx.seed)
     for l in open(logp):
         o = json.loads(l)
         ctx.evaluations += 1
-        if len(o["c"]["ops"]) > 1:
+        if len(o["c"]["ops"]) > 1 or o["c"].get("init", "default") != "default":
             ctx.nontrivial.add(casehash(o["c"]))
-        if rng.random() < 0.08:
+        if rng.random() < 0.02:
             ctx.samples.append(dict(c=o["c"], outcome=o["outcome"], runs=o.get("runs", [])[:2]))
-    ctx.rule = ("every multiset of <=2 (quick) / <=3 (thorough) operations out of the 10 validation-time operations; each is one concurrent run "
-                "under -race; non-trivial = multisets of at least two operations")
+    ctx.rule = ("flat operations: every multiset of <=2 (quick) / <=3 (thorough); product operations <<entry, feature>>: each alone, "
+                "every pair of entries and every pair of features (quick; the feature / entry they meet in chosen by the seed) / every pair "
+                "(thorough); media types: every <<side, declared.sent>> alone and next to a JSON body; flat x product / media by the seed; "
+                "process configurations (uniqueness checker replaced / nil, details off).  Each case is one concurrent run under -race; "
+                "non-trivial = at least two operations or a non-default configuration")
     ctx.validate("Trace_C15", "Trace_C15.cfg", logp, chunk_lines=60)
